@@ -266,7 +266,8 @@ def cases(tier, seed):
     d1 = [t for t in d1 if not degenerate(t)]
     d2 = [t for t in d2 if not degenerate(t)]
     subs = [t for t in subs if not degenerate(t)]
-    out = [Case("depth1:all", trees=d1, seed=seed), Case("equality:keyword-arguments", trees=[], seed=seed, kind="kwargs")]
+    out = [Case("depth1:all", trees=d1, seed=seed), Case("equality:keyword-arguments", trees=[], seed=seed, kind="kwargs"),
+           Case("pickle:history", trees=[], seed=seed, kind="pickle_history")]
     from symx import meshes
 
     meshes.get_device("bar0", seed)
@@ -348,9 +349,39 @@ def body_kwargs(H, case):
     same_value(H, "equal leaves evaluate equally", P1(x, y), P2(x, y))
 
 
+def body_pickle_history(H, case):
+    """a pickle holds the state the expression has *when it is pickled*, whatever was serialized before:
+    pickle, change a leaf's keyword argument in place, pickle again (also starting from an unpickled object)"""
+    from tdgl.parameter import Parameter
+
+    x, y = H.real("x", lo=-2.0, hi=2.0), H.real("y", lo=-2.0, hi=2.0)
+    for origin in ("built", "unpickled"):
+        for nm, op in OPS[:4]:
+            leaf = Parameter(kw_leaf, a=1.0, b=2.5)
+            other = Parameter(f2)
+            for side in ("left", "right"):
+                leaf.kwargs["a"] = 1.0
+                P = op(leaf, other) if side == "left" else op(other, leaf)
+                P = op(P, 2) if nm != "/" else P / 2  # one level deeper: the leaf is not a direct operand of the root
+                if origin == "unpickled":
+                    P = pickle.loads(pickle.dumps(P))
+                first = pickle.dumps(P)
+                # the leaf inside the expression at hand
+                node = P.left
+                target = node.left if side == "left" else node.right
+                target.kwargs["a"] = 3.0
+                second = pickle.loads(pickle.dumps(P))
+                tag = f"{origin} (kw_leaf {nm} f2, leaf on the {side}) {nm if nm != '/' else '/'} 2"
+                H.prove(f"{tag}: pickled again after an in-place change of a keyword argument: equal to the current expression", second == P and P == second)
+                H.prove(f"{tag}: ... and not equal to what was pickled before the change", not (pickle.loads(first) == P))
+                same_value(H, f"{tag}: ... and evaluates like the current expression", second(x, y), P(x, y))
+
+
 def body(H, case):
     if case.params.get("kind") == "kwargs":
         return body_kwargs(H, case)
+    if case.params.get("kind") == "pickle_history":
+        return body_pickle_history(H, case)
     if case.params.get("kind") == "solver":
         return body_solver(H, case)
     import tdgl
